@@ -50,12 +50,18 @@ def plain_server_arbitrary_stream(h, allow_v2=None):
     out = feed(h, eng, data)
     acts = app_actions(out)
     ph = phase(h, eng)
-    if _authenticated(acts) or ph == "Data":
-        # some token handed to the mechanism must be HELLO with exactly the configured credentials
+    # a listener never plays the PLAIN client: it must not emit HELLO (which carries its configured credentials)
+    sent = list(sends(out))
+    hello_at = [i for i in range(len(sent) - 5) if all(isinstance(sent[i + k], int) and sent[i + k] == HELLO[k] for k in range(6))]
+    h.check(not hello_at, "c06.plain-server.listener-sent-hello", "the PLAIN listener emitted a HELLO command (its own credentials) towards the peer")
+    if _authenticated(acts) or ph in ("Data", "Ready"):
+        # the Security phase was left: some token handed to the mechanism must be HELLO with exactly the configured credentials
         want = HELLO + [cl] + user + [cl] + pw
         conds = []
         for t in toks:
-            if len(t) == len(want):
+            # the token must carry exactly the configured user name and password (their length bytes are part of
+            # `want`); bytes after the password field are ignored by the parser and do not weaken the check
+            if len(t) >= len(want):
                 conds.append(conj([bv(a, 8) == bv(b, 8) for a, b in zip(t, want)]))
         ok = False
         for c in conds:
@@ -72,8 +78,10 @@ def replay_plain_server_arbitrary_stream(model, params, role):
               f"allow_zmtp2={1 if dict(map(tuple, model.get('_choices', []))).get('allow_zmtp2', 1) else 0}\nstart\nfeed {model.get('peer','')}\nphase\n")
     if "panic" in role:
         return script, (lambda out: "PANIC" in out), "peer bytes fed to a PLAIN server engine; expecting a panic"
-    return script, (lambda out: "handshake_complete" in out or "deliver" in out or "phase Data" in out), \
-        "peer bytes fed to a PLAIN server engine; expecting handshake_complete/deliver/Data without valid HELLO"
+    if "listener-sent-hello" in role:
+        return script, (lambda out: any(l.startswith("send ") and "0548454c4c4f" in l for l in out.splitlines())), "peer bytes fed to a PLAIN server engine; expecting it to emit HELLO"
+    return script, (lambda out: "handshake_complete" in out or "deliver" in out or "phase Data" in out or "phase Ready" in out), \
+        "peer bytes fed to a PLAIN server engine; expecting it to leave the Security phase (Ready/Data/handshake_complete/deliver) without valid HELLO"
 
 
 def gate_without_available_mechanism(h):
